@@ -266,3 +266,360 @@ def c01_quick():
 
 def c01_thorough():
     return (arith() + compare() + casts() + unary() + control() + composites() + refs())
+
+
+# ------------------------------------------------------------------------------------------------ C04 fixed arrays
+def _weights_sum(arr, n, ety):
+    """return a[0] + 10*a[1] + 100*a[2] ... as i64 (observes every element)."""
+    e = None
+    for k in range(n):
+        term = Cast(Index(arr, Lit(k, I32)), I64)
+        if k:
+            term = Bin('*', term, Lit(10 ** k, I64))
+        e = term if e is None else Bin('+', e, term)
+    return e
+
+
+def c04(tier='quick'):
+    out = []
+    ns = (1, 3) if tier == 'quick' else (1, 2, 3, 5)
+    etys = (I32, I64) if tier == 'quick' else (I8, I32, I64)
+    for n in ns:
+        for ety in etys:
+            AT = ArrT(n, ety)
+            a = Var('a', AT)
+            elems = [Cast(X, ety), Cast(Y, ety), Lit(3, ety), Lit(4, ety), Cast(Bin('+', X, Y), ety)][:n]
+            mk = Let('a', AT, ArrLit(AT, elems))
+            tag = 'n%d/%s' % (n, ety.name)
+
+            def rd(idx_expr):
+                return [Let('r', ety, Index(a, idx_expr)), Return(Cast(Var('r', ety), I64))]
+            # (i) literal indices, in range and just outside
+            for k in list(range(-n, n)) + [n, -n - 1]:
+                out.append(Template('c04/lit_read/%s/%d' % (tag, k), fn3([mk] + rd(Lit(k, I32))), family='c04-literal', expect='any'))
+                body = [mk, Assign(Index(a, Lit(k, I32)), Cast(Z, ety)), Return(_weights_sum(a, n, ety))]
+                out.append(Template('c04/lit_write/%s/%d' % (tag, k), fn3(body), family='c04-literal', expect='any'))
+            if n < 2:
+                continue
+            # (ii) const index
+            for k in (n - 1, -1):
+                body = [Let('K', I32, Lit(k, I32), const=True), mk] + rd(Var('K', I32))
+                out.append(Template('c04/const_read/%s/%d' % (tag, k), fn3(body), family='c04-const', expect='any'))
+            # (iii) let never reassigned
+            for k in (1, -n):
+                body = [Let('i', I32, Lit(k, I32)), mk] + rd(Var('i', I32))
+                out.append(Template('c04/let_read/%s/%d' % (tag, k), fn3(body), family='c04-let', expect='any'))
+                body = [Let('i', I32, Lit(k, I32)), mk, Assign(Index(a, Var('i', I32)), Cast(Z, ety)), Return(_weights_sum(a, n, ety))]
+                out.append(Template('c04/let_write/%s/%d' % (tag, k), fn3(body), family='c04-let', expect='any'))
+            # (iv) reassigned under a branch whose condition is a parameter
+            for k0, k1 in ((0, n - 1), (-1, 0), (1, n)):
+                body = [Let('i', I32, Lit(k0, I32)), mk, If(Cmp('>', Z, Lit(0, I64)), [Assign(Var('i', I32), Lit(k1, I32))])] + rd(Var('i', I32))
+                out.append(Template('c04/branch_read/%s/%d_%d' % (tag, k0, k1), fn3(body), family='c04-branch', expect='any'))
+                body = [Let('i', I32, Lit(k0, I32)), mk, If(Cmp('>', Z, Lit(0, I64)), [Assign(Var('i', I32), Lit(k1, I32))]),
+                        Assign(Index(a, Var('i', I32)), Lit(77, ety)), Return(_weights_sum(a, n, ety))]
+                out.append(Template('c04/branch_write/%s/%d_%d' % (tag, k0, k1), fn3(body), family='c04-branch', expect='any'))
+            # (v) loop-carried index
+            for step in ('assign', 'inc'):
+                stepst = Assign(Var('i', I32), Bin('+', Var('i', I32), Lit(1, I32))) if step == 'assign' else IncDec(Var('i', I32), '++')
+                body = [mk, Let('s', I64, Lit(0, I64)), Let('i', I32, Lit(0, I32)),
+                        While(Cmp('<', Var('i', I32), Lit(n, I32)), [OpAssign(Var('s', I64), '+', Bin('*', Cast(Index(a, Var('i', I32)), I64), Cast(Bin('+', Var('i', I32), Lit(1, I32)), I64))), stepst]),
+                        Return(Var('s', I64))]
+                out.append(Template('c04/loop_read/%s/%s' % (tag, step), fn3(body), family='c04-loop', expect='any', unroll=n + 2))
+                body = [mk, Let('i', I32, Lit(0, I32)),
+                        While(Cmp('<', Var('i', I32), Lit(n, I32)), [Assign(Index(a, Var('i', I32)), Cast(Z, ety)), stepst]),
+                        Return(_weights_sum(a, n, ety))]
+                out.append(Template('c04/loop_write/%s/%s' % (tag, step), fn3(body), family='c04-loop', expect='any', unroll=n + 2))
+                # loop that runs one past the end: must be rejected or panic
+                body = [mk, Let('i', I32, Lit(0, I32)),
+                        While(Cmp('<=', Var('i', I32), Lit(n, I32)), [Assign(Index(a, Var('i', I32)), Cast(Z, ety)), stepst]),
+                        Return(_weights_sum(a, n, ety))]
+                out.append(Template('c04/loop_write_oob/%s/%s' % (tag, step), fn3(body), family='c04-loop', expect='any', unroll=n + 3))
+            # index computed from a parameter (opaque): must be rejected or bounds-checked
+            body = [mk] + rd(Cast(Z, I32))
+            out.append(Template('c04/param_read/%s' % tag, fn3(body), family='c04-param', expect='any'))
+            body = [mk, Assign(Index(a, Cast(Z, I32)), Lit(77, ety)), Return(_weights_sum(a, n, ety))]
+            out.append(Template('c04/param_write/%s' % tag, fn3(body), family='c04-param', expect='any'))
+    return out
+
+
+# ------------------------------------------------------------------------------------------------ C08 dynamic arrays / strings
+def wide_index_region(ity):
+    """Index values that do not survive the narrowing to i32 the compiler performs before its bounds check (D5)."""
+    def f(args):
+        z = args[2]
+        if ity.bits == 64 and ity.signed:
+            return z3.SignExt(32, z3.Extract(31, 0, z)) != z
+        if ity.bits == 64:
+            return z3.UGE(z, z3.BitVecVal(1 << 31, 64))
+        if ity.bits == 32 and not ity.signed:
+            return z3.UGE(z3.Extract(31, 0, z), z3.BitVecVal(1 << 31, 32))
+        return z3.BoolVal(False)
+    return f
+
+
+def c08(tier='quick'):
+    out = []
+    itys = (I8, I32, I64, U8) if tier == 'quick' else (I8, I16, I32, I64, U8, U32, U64)
+    etys = (I32,) if tier == 'quick' else (I32, I64, I8)
+    for ety in etys:
+        DT = DynT(ety)
+        a = Var('a', DT)
+        for m in (0, 1, 3):
+            for p in ((0, 1) if tier == 'quick' else (0, 1, 2)):
+                if m == 0 and p == 0:
+                    continue
+                elems = [Cast(X, ety), Lit(20, ety), Lit(30, ety)][:m]
+                pre = [Let('a', DT, ArrLit(DT, elems))] + [Append(a, Lit(40 + k, ety)) for k in range(p)]
+                n = m + p
+                for ity in itys:
+                    idx = Cast(Z, ity) if ity != I64 else Z
+                    tag = '%s/m%d_p%d/%s' % (ety.name, m, p, ity.name)
+                    body = pre + [Let('r', ety, Index(a, idx)), Return(Cast(Var('r', ety), I64))]
+                    reg = {'index_beyond_i32': wide_index_region(ity)} if ity.name in ('i64', 'u64', 'u32') else {}
+                    out.append(Template('c08/read/' + tag, fn3(body), family='c08-opaque-index', regions=reg))
+                    body = pre + [Assign(Index(a, idx), Cast(Y, ety)), Let('r', ety, Index(a, Lit(n - 1, I32))), Return(Cast(Var('r', ety), I64))]
+                    out.append(Template('c08/write/' + tag, fn3(body), family='c08-opaque-index', regions=reg))
+                # literal in-range indices (including positions that exist only because of appends) must compile
+                for k in sorted({0, n - 1, -1, -n}):
+                    body = pre + [Let('r', ety, Index(a, Lit(k, I32))), Return(Cast(Var('r', ety), I64))]
+                    out.append(Template('c08/lit_read/%s/m%d_p%d/%d' % (ety.name, m, p, k), fn3(body), family='c08-literal-index'))
+                    body = pre + [Let('i', I32, Lit(k, I32)), Assign(Index(a, Var('i', I32)), Cast(Y, ety)), Let('r', ety, Index(a, Var('i', I32))), Return(Cast(Var('r', ety), I64))]
+                    out.append(Template('c08/let_write/%s/m%d_p%d/%d' % (ety.name, m, p, k), fn3(body), family='c08-literal-index'))
+                # literal out-of-range index: rejected or panics
+                for k in (n, -n - 1):
+                    body = pre + [Let('r', ety, Index(a, Lit(k, I32))), Return(Cast(Var('r', ety), I64))]
+                    out.append(Template('c08/lit_oob/%s/m%d_p%d/%d' % (ety.name, m, p, k), fn3(body), family='c08-literal-index', expect='any'))
+    # print before panic: the line must be part of the trace before the panic event
+    DT = DynT(I32)
+    a = Var('a', DT)
+    body = [Let('a', DT, ArrLit(DT, [Cast(X, I32), Lit(2, I32)])), Print(Y), Let('r', I32, Index(a, Cast(Z, I32))), Return(Cast(Var('r', I32), I64))]
+    out.append(Template('c08/print_then_index', fn3(body), family='c08-print'))
+    # string variables whose contents (and length) change: later reassignment, reassignment under a branch
+    sv = Var('s', STR)
+    for ity in itys:
+        idx = Cast(Z, ity) if ity != I64 else Z
+        reg = {'index_beyond_i32': wide_index_region(ity)} if ity.name in ('i64', 'u64', 'u32') else {}
+        for first, second in (('hi', 'hello, world'), ('hello, world', 'hi')):
+            tag = '%d_%d/%s' % (len(first), len(second), ity.name)
+            body = [Let('s', STR, StrLit(first)), Let('c', BYTE, Index(sv, idx)), Assign(sv, StrLit(second)),
+                    Let('d', BYTE, Index(sv, Lit(0, I32))), Return(Bin('+', Cast(Var('c', BYTE), I64), Bin('*', Cast(Var('d', BYTE), I64), Lit(1000, I64))))]
+            out.append(Template('c08/str_reassign_later/' + tag, fn3(body), family='c08-string', regions=reg))
+            body = [Let('s', STR, StrLit(first)), If(Cmp('>', Y, Lit(0, I64)), [Assign(sv, StrLit(second))]),
+                    Let('c', BYTE, Index(sv, idx)), Return(Cast(Var('c', BYTE), I64))]
+            out.append(Template('c08/str_reassign_branch/' + tag, fn3(body), family='c08-string', regions=reg))
+    # dynamic arrays re-bound to a literal of a different length
+    DT = DynT(I32)
+    a = Var('a', DT)
+    for l1, l2 in ((1, 3), (3, 1)):
+        e1 = [Lit(10 + k, I32) for k in range(l1)]
+        e2 = [Lit(20 + k, I32) for k in range(l2)]
+        body = [Let('a', DT, ArrLit(DT, e1)), Let('r', I32, Index(a, Cast(Z, I32))), Assign(a, ArrLit(DT, e2)),
+                Let('q', I32, Index(a, Lit(0, I32))), Return(Bin('+', Cast(Var('r', I32), I64), Bin('*', Cast(Var('q', I32), I64), Lit(1000, I64))))]
+        out.append(Template('c08/arr_rebind_later/%d_%d' % (l1, l2), fn3(body), family='c08-rebind'))
+    # strings
+    for s in ('hello', 'a'):
+        for ity in itys:
+            idx = Cast(Z, ity) if ity != I64 else Z
+            body = [Let('s', STR, StrLit(s)), Let('c', BYTE, Index(Var('s', STR), idx)), Return(Cast(Var('c', BYTE), I64))]
+            reg = {'index_beyond_i32': wide_index_region(ity)} if ity.name in ('i64', 'u64', 'u32') else {}
+            out.append(Template('c08/str_read/%d/%s' % (len(s), ity.name), fn3(body), family='c08-string', regions=reg))
+    return out
+
+
+# ------------------------------------------------------------------------------------------------ C18 layout
+def _struct_pool(tier):
+    IN2 = StructT('In2', [('P', I8), ('Q', I64)])
+    pool = [
+        StructT('S0', [('A', I8), ('B', I64)]),
+        StructT('S1', [('A', I64), ('B', I8), ('C', I16)]),
+        StructT('S2', [('A', I8), ('B', I16), ('C', I32), ('D', I64)]),
+        StructT('S3', [('A', I32), ('B', U8), ('C', U8), ('D', I16)]),
+        StructT('S4', [('A', BOOL), ('B', I64), ('C', BOOL)]),
+        StructT('S5', [('A', I16), ('N', IN2), ('Z', I8)]),
+        StructT('S6', [('A', U8), ('R', ArrT(2, I32)), ('Z', I16)]),
+    ]
+    if tier != 'quick':
+        pool += [
+            StructT('S7', [('A', I8), ('B', I8), ('C', I8), ('D', I64)]),
+            StructT('S8', [('N', IN2), ('M', IN2)]),
+            StructT('S9', [('R', ArrT(3, I8)), ('B', I32)]),
+            StructT('S10', [('A', U16), ('B', U32), ('C', U64), ('D', U8)]),
+        ]
+    return pool, IN2
+
+
+def _leaves(ty, base, path=()):
+    """(place_expr, leaf_ty) for every scalar component of a value of type ty rooted at expression base."""
+    if isinstance(ty, StructT):
+        out = []
+        for f, ft in ty.fields:
+            out += _leaves(ft, Field(base, f))
+        return out
+    if isinstance(ty, ArrT):
+        out = []
+        for k in range(ty.n):
+            out += _leaves(ty.elem, Index(base, Lit(k, I32)))
+        return out
+    return [(base, ty)]
+
+
+def _init_expr(ty, k):
+    """Initial value of leaf k: a distinct symbolic value derived from parameter z."""
+    if isinstance(ty, BoolT):
+        return Cmp('>', Bin('+', Z, Lit(k, I64)), Lit(0, I64))
+    return Cast(Bin('+', Z, Lit(k * 37 + 1, I64)), ty)
+
+
+def _mk_value(ty, counter):
+    if isinstance(ty, StructT):
+        return StructLit(ty, {f: _mk_value(ft, counter) for f, ft in ty.fields})
+    if isinstance(ty, ArrT):
+        return ArrLit(ty, [_mk_value(ty.elem, counter) for _ in range(ty.n)])
+    counter[0] += 1
+    return _init_expr(ty, counter[0])
+
+
+def _as_i64(e, ty):
+    if isinstance(ty, BoolT):
+        return None
+    return Cast(e, I64)
+
+
+def c18(tier='quick'):
+    out = []
+    pool, IN2 = _struct_pool(tier)
+    for S in pool:
+        s = Var('s', S)
+        leaves = _leaves(S, s)
+        types = [IN2, S] if any(isinstance(ft, StructT) for _, ft in S.fields) else [S]
+        for wi, (wplace, wty) in enumerate(leaves):
+            newv = Cmp('>', X, Lit(0, I64)) if isinstance(wty, BoolT) else Cast(X, wty)
+            reads = list(enumerate(leaves)) + [('before', None), ('after', None), ('copy', None)]
+            for ri, rd in reads:
+                head = [Let('before', I64, Bin('+', Z, Lit(1000, I64))), Let('s', S, _mk_value(S, [0])), Let('after', I64, Bin('-', Z, Lit(1000, I64)))]
+                if ri == 'copy':
+                    # copy after the write copies everything: read the written leaf from the copy
+                    body = head + [Assign(wplace, newv), Let('c', S, s)]
+                    cplace = _leaves(S, Var('c', S))[wi][0]
+                    rplace, rty = cplace, wty
+                elif ri in ('before', 'after'):
+                    body = head + [Assign(wplace, newv)]
+                    rplace, rty = Var(ri, I64), I64
+                else:
+                    body = head + [Assign(wplace, newv)]
+                    rplace, rty = rd
+                if isinstance(rty, BoolT):
+                    body += [If(rplace, [Return(Lit(1, I64))]), Return(Lit(0, I64))]
+                else:
+                    body += [Let('r', rty, rplace), Return(Cast(Var('r', rty), I64))]
+                out.append(Template('c18/%s/w%d/r%s' % (S.name, wi, ri), fn3(body, types=types), family='c18-struct'))
+    # optionals: payload and discriminant
+    for pty in ((I8, I32, I64) if tier == 'quick' else (I8, I16, I32, I64, U8)):
+        OT = OptT(pty)
+        o = Var('o', OT)
+        body = [Let('before', I64, Bin('+', Z, Lit(5, I64))), Let('o', OT, NoneLit(OT)), Let('after', I64, Bin('-', Z, Lit(5, I64))),
+                If(Cmp('>', Y, Lit(0, I64)), [Assign(o, Cast(X, pty))]), Let('d', pty, Lit(7, pty)), Let('r', pty, Coalesce(o, Var('d', pty))),
+                Return(Bin('+', Bin('+', Cast(Var('r', pty), I64), Var('before', I64)), Var('after', I64)))]
+        out.append(Template('c18/opt/%s' % pty.name, fn3(body), family='c18-optional'))
+    return out
+
+
+# ------------------------------------------------------------------------------------------------ C05 return shapes
+def _c05_items(depth, params, counter):
+    """Enumerate statement shapes; every condition / subject uses the next parameter."""
+    def nxt():
+        p = params[counter[0] % len(params)]
+        counter[0] += 1
+        return p
+    RET = lambda: Return(Bin('+', Var(nxt(), I64), Lit(counter[0], I64)))
+    if depth == 0:
+        return None
+    return RET
+
+
+def c05_shapes(depth):
+    """Return list of (name, body-builder) where builder(ctx) -> list of statements.  ctx supplies fresh conditions and return values."""
+    class Ctx:
+        def __init__(self):
+            self.k = 0
+
+        def cond(self):
+            self.k += 1
+            return Cmp('>', Var(['x', 'y', 'z'][self.k % 3], I64), Lit(self.k, I64))
+
+        def subj(self):
+            self.k += 1
+            return Var(['x', 'y', 'z'][self.k % 3], I64)
+
+        def ret(self):
+            self.k += 1
+            return Return(Bin('+', Var(['x', 'y', 'z'][self.k % 3], I64), Lit(100 * self.k, I64)))
+
+        def nop(self):
+            self.k += 1
+            return Let('v%d' % self.k, I64, Lit(self.k, I64))
+
+    def gen(d):
+        """yield (name, fn(ctx)->stmts, always_returns?)"""
+        yield ('ret', lambda c: [c.ret()])
+        yield ('nop', lambda c: [c.nop()])
+        if d == 0:
+            return
+        subs = list(gen(d - 1))
+        for n1, f1 in subs:
+            yield ('if(%s)' % n1, lambda c, f1=f1: [If(c.cond(), f1(c))])
+            yield ('while(%s)' % n1, lambda c, f1=f1: [While(c.cond(), f1(c) + [Break()])])
+            yield ('whiletrue(%s)' % n1, lambda c, f1=f1: [While(Lit(True, BOOL), f1(c) + [If(c.cond(), [Break()])])])
+            for n2, f2 in subs:
+                yield ('ifelse(%s,%s)' % (n1, n2), lambda c, f1=f1, f2=f2: [If(c.cond(), f1(c), f2(c))])
+                yield ('match(%s,_%s)' % (n1, n2), lambda c, f1=f1, f2=f2: [Match(c.subj(), [(Lit(1, I64), f1(c)), (None, f2(c))])])
+                yield ('matchnd(%s,%s)' % (n1, n2), lambda c, f1=f1, f2=f2: [Match(c.subj(), [(Lit(1, I64), f1(c)), (Lit(2, I64), f2(c))])])
+                yield ('elif(%s,%s)' % (n1, n2), lambda c, f1=f1, f2=f2: [If(c.cond(), f1(c), If(c.cond(), f2(c)))])
+                yield ('elifelse(%s,%s)' % (n1, n2), lambda c, f1=f1, f2=f2: [If(c.cond(), f1(c), If(c.cond(), f2(c), [c.ret()]))])
+    return list(gen(depth)), Ctx
+
+
+def _c05_wrap(kind, body):
+    """Place a generated body in a named function, a method or a function literal; entry is always t(x,y,z)."""
+    if kind == 'fn':
+        return fn3(body)
+    if kind == 'method':
+        ST = StructT('Box', [('V', I64)])
+        m = Func('m', [('x', I64), ('y', I64), ('z', I64)], I64, body, recv=('s', RefT(ST, False)))
+        tb = [Let('b', ST, StructLit(ST, {'V': Lit(1, I64)})), Return(MethodCall(Var('b', ST), 'm', [X, Y, Z], I64))]
+        return fn3(tb, types=[ST], extra=[m])
+    if kind == 'lit':
+        lf = Func('f', [('x', I64), ('y', I64), ('z', I64)], I64, body)
+        tb = [FuncLitLet('f', lf), Return(Call('f', [X, Y, Z], I64))]
+        return fn3(tb)
+    raise ValueError(kind)
+
+
+def c05(tier='quick', seed=0):
+    import random
+    out = []
+    shapes, Ctx = c05_shapes(1 if tier == 'quick' else 2)
+    d1, _ = c05_shapes(1)
+    names1 = {n for n, _ in d1}
+    rnd = random.Random(seed)
+    sel = shapes
+    if tier != 'quick' and len(shapes) > 500:
+        rest = [s for s in shapes if s[0] not in names1]
+        sel = [s for s in shapes if s[0] in names1] + rnd.sample(rest, 400)
+    meta = {'nonterm_ok': True}
+    for name, f in sel:
+        kinds = ('fn', 'method', 'lit') if name in names1 else ('fn',)
+        for kind in kinds:
+            for tail in (False, True):
+                c = Ctx()
+                body = f(c) + ([c.ret()] if tail else [])
+                tid = 'c05/%s/%s/%s' % (kind, name, 'tail' if tail else 'notail')
+                out.append(Template(tid, _c05_wrap(kind, body), family='c05-' + kind, expect='any', unroll=3, meta=meta))
+    # sequences of two depth-1 shapes without a tail return
+    dd = [s for s in d1 if s[0] not in ('ret', 'nop')]
+    pairs = [(a, b) for a in dd for b in dd]
+    for (n1, f1), (n2, f2) in rnd.sample(pairs, min(60 if tier == 'quick' else 200, len(pairs))):
+        c = Ctx()
+        body = f1(c) + f2(c)
+        out.append(Template('c05/fn/seq[%s;%s]/notail' % (n1, n2), fn3(body), family='c05-fn', expect='any', unroll=3, meta=meta))
+    return out
